@@ -38,7 +38,7 @@ BOUNDS = ("one problem family inside DurativeActionToProcesses.supported_kind():
           "durations in 1..8 ticks, all symbolic (quick: the compile step is run natively when every duration constant is concrete)")
 OUTSIDE = ("plans that give a fixed-duration action another duration than its fixed one; two instances of the same variable-duration action "
            "with the same parameters that properly overlap (the kind has no SELF_OVERLAPPING); fluent-dependent durations (unsupported); "
-           "more than 4 instances; denominators other than 1")
+           "more than 4 instances; time units other than 1 and 1/3")
 ASSUMPTIONS = [
     "the plan gives every instance of a fixed-duration action exactly its fixed duration (back conversion recomputes it from the action)",
     "for a variable-duration action whose first end timing is end-delta, duration > delta (asserted by _forward_plan_to_plan)",
@@ -268,7 +268,12 @@ def shards(tier, seed):
     sh("F-F-symkd", [F, F], sym=dict(kd=[1, 8], s0=SW, s1=SW))
     sh("F-V-symkd", [F, V], sym=dict(kd=[1, 8], s0=SW, s1=SW, d1=DW))
     sh("F-P0-symkd", [F, P0], sym=dict(kd=[1, 8], s0=SW, s1=SW, k0=KW))
+    # thirds as the time unit: fixed-duration constants that no binary float represents exactly (7/3, 5/3)
+    sh("F-F-thirds", [F, F], vals=dict(kd=7), den=3)
+    sh("F-V-thirds", [F, V], vals=dict(kd=5), den=3)
     if not Q:
+        sh("F-W-I-thirds", [F, W, I], vals=dict(kd=7), den=3)
+        sh("F-F-symkd-thirds", [F, F], sym=dict(kd=[1, 8], s0=SW, s1=SW), den=3)
         sh("V-V-V", [V, V, V])
         sh("W-W-W", [W, W, W])
         sh("V-W-V", [V, W, V])
